@@ -47,6 +47,14 @@ def atoi (s : String) : Option Int :=
     if v < -9223372036854775808 || v > 9223372036854775807 then none else some v
   else none
 
+/-- `strings.Split(s, ",")` (own structural recursion so that the kernel can evaluate it) -/
+def splitCommaAux : List Char → List Char → List String
+  | cur, [] => [String.ofList cur.reverse]
+  | cur, c :: cs =>
+    if c = ',' then String.ofList cur.reverse :: splitCommaAux [] cs else splitCommaAux (c :: cur) cs
+
+def splitComma (s : String) : List String := splitCommaAux [] s.toList
+
 /-- a struct field as the generator sees it: name, whether `FieldType.String() == "bool"`, and
 the option strings of its `gsort:"…"` tags in tag order -/
 structure Field where
@@ -67,7 +75,7 @@ structure SFD where
 /-- `sfdFromLine` + the two assignments in `sortFieldDescFromTag`.
 `strings.Split` never returns an empty slice, so the `len(tuple) < 1` branch is dead. -/
 def sfdFromLine (f : Field) (options : String) : Except GenErr SFD :=
-  let tuple := options.splitOn ","
+  let tuple := splitComma options
   if tuple.length > 3 then .error .tagArity
   else
     let sorter := tuple.headD ""
@@ -181,12 +189,16 @@ def validateAll : Descs → Except GenErr Unit
   | [] => .ok ()
   | (_, fs) :: rest => do validate fs; validateAll rest
 
-/-- `createSorterDesc` followed by the template, for one struct type -/
-def generateWith (ret : Bool → String → RetExpr) (fields : List Field) : Except GenErr (List Sorter) := do
-  let fds ← allSFDs fields
+/-- `createSorterDesc` after the tags were read, followed by the template -/
+def generateFromSFDs (ret : Bool → String → RetExpr) (fds : List SFD) : Except GenErr (List Sorter) := do
   let descs := groupAll fds
   validateAll descs
   pure (descs.map (fun d => ⟨d.1, blockWith ret (priorityTree d.2)⟩))
+
+/-- `createSorterDesc` followed by the template, for one struct type -/
+def generateWith (ret : Bool → String → RetExpr) (fields : List Field) : Except GenErr (List Sorter) := do
+  let fds ← allSFDs fields
+  generateFromSFDs ret fds
 
 def generate : List Field → Except GenErr (List Sorter) := generateWith retOf
 def generateLegacy : List Field → Except GenErr (List Sorter) := generateWith retOfLegacy
